@@ -128,34 +128,6 @@ example : exD1.WF ∧ (rangeInit exD1 {} .table (-5) 126 = .ok (.cursor [-5, -4,
 
 /-! ### the same statement about `range` as translated from /repo/src (`Generated/Templates.lean`) -/
 
-theorem rangeSlice_cursor (D : Derive) (si ei : Nat) (st : IterState Int) (hs : rangeSlice D si ei = .ok st) : ∃ l, st = .cursor l := by
-  unfold rangeSlice at hs
-  split at hs
-  · injection hs with e; exact ⟨_, e.symm⟩
-  · exact cursor_of_bind _ (fun l => l) st hs
-
-theorem rangeInit_cursor (D : Derive) (t : Target) (m : IterMode) (hm : m ≠ .nextAndBack) (a b : Int) (st : IterState Int)
-    (hi : rangeInit D t m a b = .ok st) : ∃ l, st = .cursor l := by
-  unfold rangeInit at hi
-  split at hi
-  · cases m with
-    | nextAndBack => exact absurd rfl hm
-    | range => exact cursor_of_bind _ (fun l => l) st hi
-    | table => exact rangeSlice_cursor D _ _ st hi
-    | auto => simp only at hi; injection hi with e; exact ⟨_, e.symm⟩
-    | tableInline => simp only at hi; injection hi with e; exact ⟨_, e.symm⟩
-  · cases m with
-    | nextAndBack => exact absurd rfl hm
-    | table =>
-      simp only at hi
-      cases hx : rangeIdx D t a b with
-      | ok p => rw [hx] at hi; exact rangeSlice_cursor D _ _ st hi
-      | panic w => rw [hx] at hi; simp at hi
-      | ub w => rw [hx] at hi; simp at hi
-    | range => simp only at hi; injection hi with e; exact ⟨_, e.symm⟩
-    | auto => simp only at hi; injection hi with e; exact ⟨_, e.symm⟩
-    | tableInline => simp only at hi; injection hi with e; exact ⟨_, e.symm⟩
-
 /-- `range(a, b)` as the source is written now: a cursor over `{v | a ≤ v ≤ b}` under every finite history,
 in every mode the macro accepts, also when `a > b` -/
 theorem C07_source (D : Derive) (tg : Target) (md : Modes) (h : D.WF) (ht : tg.WF)
